@@ -10,6 +10,7 @@ mod reader;
 mod repl;
 mod rich;
 mod syms;
+mod unused;
 
 fn main() {
     let args: Vec<String> = std::env::args().collect();
@@ -28,6 +29,7 @@ fn main() {
         "cerr" => cerr::run(&rest),
         "repl" => repl::run(&rest),
         "syms" => syms::run(&rest),
+        "unused" => unused::run(&rest),
         other => {
             eprintln!("cvh: unknown sub-command {other}");
             std::process::exit(2);
